@@ -102,7 +102,9 @@ def render(v, ind=""):
         return ["<null>"]
     if isinstance(v, bool):
         return ["true" if v else "false"]
-    if isinstance(v, (int, str)):
+    if isinstance(v, str):
+        return v.split("\n")
+    if isinstance(v, int):
         return [str(v)]
     if isinstance(v, list):
         out = ["["]
@@ -154,6 +156,8 @@ def gen_patterns(rng, tier):
                             props.append((key, leaf("n" if (i + style) % 3 else "_"), False))
                     pats.append(("O", props, None if rest is None else leaf(rest)))
     # nested, depth 2
+    pats.append(("L", [("n", "_v"), ("n", "_")] if False else [("n", "_v"), ("_",)], ("n", "_rest")))
+    pats.append(("O", [("a", ("n", "_a"), False)], ("n", "_others")))
     inner = [("L", [("n", "i1")], None), ("L", [("n", "i1"), ("_",)], ("n", "ir")), ("O", [("a", ("n", "ia"), False)], ("n", "io")), ("L", [], ("n", "ir")),
              ("O", [], None), ("L", [("L", [("n", "i2")], None)], None)]
     for q in inner:
